@@ -71,6 +71,10 @@ type vnet struct {
 	adj    [][]int
 	seenAt   map[int]bool // nodes that have handled a copy of the tracked item without rejecting it
 	badEntry string
+	origin   int    // the node the tracked item was accepted at (-1: not tracked)
+	advFree  bool   // no adversary in this run
+	backHome string // an honest node sent the item back to its origin
+	lostEntry string // a relay dropped a verified entry from the list it forwards
 	silent bool                      // warm-up item: no trace lines
 	old    map[int][]*pb.Gossiper    // genuine entries honest nodes signed for the warm-up item, by named node
 }
@@ -109,7 +113,7 @@ var vnetPipeSize uint16 = 100
 func newVnet(c *Ctx, n int, adj [][]int, honest []bool, isTrx bool) *vnet {
 	w := NewWorld(c)
 	w.quiet = true
-	v := &vnet{c: c, w: w, honest: honest, isTrx: isTrx, adj: adj, seenAt: map[int]bool{}}
+	v := &vnet{c: c, w: w, honest: honest, isTrx: isTrx, adj: adj, seenAt: map[int]bool{}, origin: -1}
 	for i := 0; i < n; i++ {
 		nd := w.NewNode()
 		v.nodes = append(v.nodes, nd)
@@ -229,6 +233,11 @@ func (v *vnet) settle() string {
 		v.queue = append(v.queue, m)
 		sym := v.msgSym(m)
 		out = append(out, sym)
+		// the origin's entry is in every genuine copy, so without an adversary nobody ever sends the item back
+		// to the node it was accepted at
+		if !v.silent && v.advFree && v.origin >= 0 && m.dst == v.origin && v.backHome == "" {
+			v.backHome = fmt.Sprintf("node %d sent the item back to its origin %d (gossiper list %s)", m.src, m.dst, sym)
+		}
 		// an honest node forwards only entries it verified for this item, plus its own
 		if !v.silent && v.honest[m.src] {
 			for _, e := range strings.Split(strings.Trim(sym[strings.Index(sym, "{"):], "{}"), ",") {
@@ -307,6 +316,7 @@ func (v *vnet) deliver(k int) (string, int) {
 	m := v.queue[k]
 	v.queue = append(append([]qmsg{}, v.queue[:k]...), v.queue[k+1:]...)
 	outcome := "absorbed"
+	inSym := v.msgSym(m) // before the handler sees it: the handler rewrites the list of the message it is given
 	if v.honest[m.dst] {
 		before := v.books[m.dst].addLeaf.Load()
 		savedBefore := v.hasItem(m.dst)
@@ -338,6 +348,21 @@ func (v *vnet) deliver(k int) (string, int) {
 		}
 	}
 	sends := v.settle()
+	// a relay hands on every entry it verified (the list only grows along a path): each genuine entry of
+	// the delivered copy is in every copy the receiving node sends out because of it
+	if !v.silent && v.honest[m.dst] && sends != "-" && v.lostEntry == "" {
+		for _, e := range strings.Split(strings.Trim(inSym[strings.Index(inSym, "{"):], "{}"), ",") {
+			var a, b, f int
+			if _, err := fmt.Sscanf(e, "%d:%d:%d", &a, &b, &f); err != nil || a != b || f != 1 {
+				continue
+			}
+			for _, out := range strings.Split(sends, ";") {
+				if !strings.Contains(","+strings.Trim(out[strings.Index(out, "{"):], "{}")+",", ","+e+",") {
+					v.lostEntry = fmt.Sprintf("node %d received the item with the verified entry %s and sent it on as %s without it", m.dst, e, out)
+				}
+			}
+		}
+	}
 	if v.isTrx && outcome == "noop" && sends != "-" {
 		outcome = "processed" // a transaction already awaiting here is forwarded again (the failing save is only logged)
 	}
@@ -556,6 +581,7 @@ func init() {
 			if advNode >= 0 {
 				v.warmup(j.origin)
 			}
+			v.origin, v.advFree = j.origin, advNode < 0
 			vx, ptx := v.originate(j.origin)
 			edges := 0
 			for _, a := range j.adj {
@@ -698,6 +724,12 @@ func init() {
 			}
 			if v.badEntry != "" {
 				c.Violate("C12", "unverified-entry-treated-as-verified", v.badEntry, info)
+			}
+			if v.backHome != "" {
+				c.Violate("C11", "item-forwarded-to-a-listed-gossiper", v.backHome, info)
+			}
+			if v.lostEntry != "" {
+				c.Violate("C11", "relay-drops-verified-gossiper-entries", v.lostEntry, info)
 			}
 			if len(v.queue) > 0 {
 				c.Violate("C11", "gossip-does-not-terminate", fmt.Sprintf("%d messages still in flight after 400 deliveries", len(v.queue)), info)
